@@ -51,4 +51,4 @@ def require_no_errors(rep: Report, cks, allow_kinds=()):
 def cfg_class(cfg) -> str:
     """coarse class of a configuration used in finding keys (no flags / impl)"""
     o = cfg.u_origin or "-"
-    return f"U(in={cfg.u_in},origin={o},out={cfg.u_out})/D(dest={cfg.d_dest or '-'},out={cfg.d_out})"
+    return f"U(in={cfg.u_in},origin={o},out={cfg.u_out})/D(in={cfg.d_in},dest={cfg.d_dest or '-'},out={cfg.d_out})"
